@@ -9,7 +9,7 @@ Reading guide
 * `WFr T t`             : the binding-power invariant of the Pratt loop
 * `Consistent T G bp K` : table `T` realises the level table `G` of the grammar (EPV/Lemmas/PrattDerive.lean)
 * `wf true G t`         : every node of `t` is an instance of an EBNF production (strict)
-* `wf false G t`        : the same with the relaxations L1–L3 (see `EPV.Syn.wf`)
+* `wf false G t`        : the same with the relaxations L1–L4 (see `EPV.Syn.wf`)
 * `derivable G k t`     : `t` is a derivation from the level-`k` nonterminal
 * `guardsPass T t`      : no `led`/`nud` of the table rejects a node of `t` (kinds, closers, `deny`, `rhs`)
 -/
@@ -52,8 +52,8 @@ theorem pratt_derives (T : Tbl) (G : Gram) (bp : Nat → Nat) (K : Nat) (hc : Co
   refine ⟨?_, pratt_yield T toks t h⟩
   simp [derivableR, wfr_relaxed hc t (pratt_wfr T toks t h)]
 
-/-- the relaxed and the strict grammar differ exactly by the three laxities: a relaxed derivation that
-uses none of L1–L3 is an EBNF derivation, and conversely. -/
+/-- the relaxed and the strict grammar differ exactly by the laxities: a relaxed derivation that
+uses none of L1–L4 is an EBNF derivation, and conversely. -/
 theorem strict_iff_relaxed_laxFree (G : Gram) : ∀ t, wf true G t = (wf false G t && laxFree G t) := by
   intro t
   induction t with
@@ -96,6 +96,13 @@ theorem strict_iff_relaxed_laxFree (G : Gram) : ∀ t, wf true G t = (wf false G
     | some p =>
       obtain ⟨j, k⟩ := p
       cases k <;> simp only [ihl, ihe] <;> cases e <;> simp [Tree.isNil, wf, laxFree] <;> grind
+  | arrow o l f a ihl ihf iha =>
+    simp only [wf, laxFree]
+    cases hg : G.led o with
+    | none => simp
+    | some p =>
+      obtain ⟨j, k⟩ := p
+      cases k <;> simp only [ihl, ihf, iha] <;> grind
 
 /-- corollary: an accepted input whose tree uses none of the laxities is parsed into an EBNF derivation -/
 theorem pratt_derives_strict (T : Tbl) (G : Gram) (bp : Nat → Nat) (K : Nat) (hc : Consistent T G bp K)
@@ -115,6 +122,7 @@ theorem need_le_yield : ∀ t : Tree, need t ≤ t.yield.length := by
   | bin o l r ihl ihr => simp [need, Tree.yield]; omega
   | typed o l n ih => simp [need, Tree.yield]; omega
   | post o c l e ihl ihe => simp [need, Tree.yield]; omega
+  | arrow o l f a ihl ihf iha => simp [need, Tree.yield]; omega
 
 /-- **completeness** (`pratt_complete`): if the table realises the level table, every EBNF derivation `t`
 from the start symbol whose nodes pass the table's guards is returned by the parser on the tokens of `t` —
